@@ -122,3 +122,60 @@ func Verif_C08_work_string() {
 	wk.cancel()
 	verifapi.Quiesce()
 }
+
+// verifSlowFS is a FileSystemer whose RemoveAll is a scheduling point (directory removal takes time).
+type verifSlowFS struct{ FileSystem }
+
+func (verifSlowFS) RemoveAll(p string) error {
+	verifapi.Yield()
+	err := os.RemoveAll(p)
+	verifapi.Yield()
+	return err
+}
+
+// Verif_C08_two_sessions: two control sessions at the same time - one lists all units (or asks for the
+// status of one), the other releases a unit or submits a new one - under every schedule within the
+// pre-emption bound: both commands return (no deadlock, in particular none on the unit index lock),
+// and a third, later command is still answered.
+func Verif_C08_two_sessions() {
+	dir := verifapi.TempDir()
+	wk := verifWorkceptor(dir)
+	verifapi.Assert("register", wk.w.RegisterWorker("cmd", verifCmdCfg().NewWorker, false) == nil)
+	verifapi.Assert("mkdir", osMkdirAll(dir+"/A/unit0020") == nil)
+	bwu := &BaseWorkUnit{}
+	bwu.Init(wk.w, "unit0020", "cmd", verifSlowFS{}, nil)
+	verifapi.Assert("saved", bwu.Save() == nil)
+	wk.w.activeUnits["unit0020"] = &unknownUnit{BaseWorkUnit: *bwu}
+	verifapi.FixRandom("unit0021", "unit0022")
+	other, err := wk.w.AllocateUnit("cmd", map[string]string{})
+	verifapi.Assert("allocated", err == nil)
+	other.UpdateBasicStatus(WorkStateSucceeded, "done", 0)
+	first := []map[string]interface{}{
+		{"command": "work", "subcommand": "list"},
+		{"command": "work", "subcommand": "status", "unitid": "unit0020"},
+	}[verifapi.Choose(2)]
+	second := []map[string]interface{}{
+		{"command": "work", "subcommand": "release", "unitid": "unit0020"},
+		{"command": "work", "subcommand": "submit", "node": "A", "worktype": "cmd"},
+		{"command": "work", "subcommand": "status", "unitid": "unit0021"},
+	}[verifapi.Choose(3)]
+	verifapi.ExploreSchedules(2)
+	done := make(chan bool, 2)
+	go func() {
+		_, _ = wk.verifCommand(verifNewCFO("unix"), first)
+		done <- true
+	}()
+	go func() {
+		_, _ = wk.verifCommand(verifNewCFO("unix"), second)
+		done <- true
+	}()
+	<-done
+	<-done
+	verifapi.ExploreSchedules(0)
+	verifapi.Cover("both-sessions-answered")
+	_, lerr := wk.verifCommand(verifNewCFO("unix"), map[string]interface{}{"command": "work", "subcommand": "list"})
+	verifapi.Assert("later-command-still-answered", lerr == nil)
+	verifapi.Assert("no-lock-left-held", verifapi.HeldLocks() == 0)
+	wk.cancel()
+	verifapi.Quiesce()
+}
